@@ -1,5 +1,6 @@
 import RallyModel.Exec
 import RallyProofs.Exec
+import RallyProofs.ExecSpelled
 /-!
 # C04 — latency, service time and processing time mean what the docs say
 
@@ -230,6 +231,75 @@ theorem ops_target_other_unit_due_times (R : Run) (tp : Throughput)
       simp [Inner.next, hr]
     · intro hun
       rw [hb, ← hin, hun]; rfl
+
+/-! ## the target throughput as the track spells it (`Task.target_throughput`, the producer of what the scheduler divides) -/
+
+/-- **spelled_target_is_its_decimal_value.**  A `target-throughput` string `<number><one white-space character><word>/s…`
+    is read as the exact decimal value of its number in the unit `<word>/s`: for `<digits>` as well as for
+    `<digits>.<digits>` — and the digits before the point may be missing altogether (".5 ops/s" is 1/2 ops/s, exactly what
+    "0.5 ops/s" is; a leading zero changes nothing). -/
+theorem spelled_target_is_its_decimal_value (ip fp : Str) (hip : Digits ip) (hfp : Digits fp) (hne : fp ≠ [])
+    (sp : Char) (hsp : isSpace sp = true) (w : Str) (hw0 : w ≠ []) (hw : Word w) (rest : Str) :
+    (decimal ip fp ≠ 0 →
+      targetThroughput id (.str (spelled (ip ++ '.' :: fp) sp w rest)) .none = .ok (some ⟨decimal ip fp, w ++ ['/', 's']⟩)) ∧
+    (ip ≠ [] → digitsVal ip ≠ 0 →
+      targetThroughput id (.str (spelled ip sp w rest)) .none = .ok (some ⟨(digitsVal ip : Rat), w ++ ['/', 's']⟩)) ∧
+    decimal [] fp = decimal ['0'] fp ∧ decimal [] fp = (digitsVal fp : Rat) / ((10 ^ fp.length : Nat) : Rat) := by
+  refine ⟨fun hv => ?_, fun hi hv => ?_, ?_, ?_⟩
+  · exact targetThroughput_of_spelled id (fun _ => rfl) (IsNumber.frac ip fp hne hip hfp) hv sp hsp w hw0 hw rest
+  · exact targetThroughput_of_spelled id (fun _ => rfl) (IsNumber.int ip hi hip) (by exact_mod_cast hv) sp hsp w hw0 hw rest
+  · simp [decimal, digitsVal]
+  · simp [decimal, digitsVal]
+example : targetThroughput id (.str ['.', '5', ' ', 'o', 'p', 's', '/', 's']) .none = .ok (some ⟨1 / 2, opsPerS⟩) := by decide +kernel
+example : targetThroughput id (.str ['.', '2', '5', '\t', 'p', 'a', 'g', 'e', 's', '/', 's', 'e', 'c']) .none =
+    .ok (some ⟨1 / 4, ['p', 'a', 'g', 'e', 's', '/', 's']⟩) := by decide +kernel
+example : targetThroughput id (.str ['0', '0', '.', '5', '0', ' ', 'o', 'p', 's', '/', 's']) .none = .ok (some ⟨1 / 2, opsPerS⟩) := by
+  decide +kernel
+
+/-- **spelled_target_due_times.**  A task whose target throughput is *written* `<number> <word>/s` with a number of value
+    `v ≠ 0` (any legal spelling: "5", "5.0", "0.5", ".5", "00.50"), deterministic schedule, `C` clients: the first request
+    of the client is due at 0, and after EVERY response that reports a positive weight `n` in the unit `<word>` the next
+    request is due exactly `n · C / v` seconds after its predecessor — `v` being the value the text denotes, nothing else
+    (with ".5 ops/s" and one client: every 2 s, not every 0.2 s). -/
+theorem spelled_target_due_times (R : Run) (num : Str) (v : Rat) (hn : IsNumber num v) (hv : v ≠ 0)
+    (sp : Char) (hsp : isSpace sp = true) (w : Str) (hw0 : w ≠ []) (hw : Word w) (rest : Str)
+    (htt : R.tt = .str (spelled num sp w rest)) (hti : R.ti = .none)
+    (hdet : R.t.sched = none ∨ R.t.sched = some detName) :
+    (∀ rec, R.f.out.recs.head? = some rec → rec.tup.sched = 0) ∧
+    Adj (fun a b => 0 < a.sample.ops → a.sample.unit = w →
+      b.tup.sched = a.tup.sched + (a.sample.ops : Rat) * (R.c.clients : Rat) / v) R.f.out.recs := by
+  have htp : targetThroughput R.c.r R.tt R.ti = .ok (some ⟨v, w ++ ['/', 's']⟩) := by
+    rw [htt, hti]
+    exact targetThroughput_of_spelled R.c.r R.exact hn hv sp hsp w hw0 hw rest
+  obtain ⟨h0, hadj⟩ := det_due_times_of_target R _ htp hdet
+  refine ⟨h0, Adj.imp ?_ hadj⟩
+  intro a b h hops hunit
+  exact h.1 hops (by rw [hunit])
+
+/-- **spelled_zero_target_is_unthrottled.**  A number of value 0 ("0", ".0", "0.00") means "no target throughput": with a
+    built-in schedule name the task runs unthrottled — every request is due at 0 and latency is service time. -/
+theorem spelled_zero_target_is_unthrottled (num : Str) (hn : IsNumber num 0)
+    (sp : Char) (hsp : isSpace sp = true) (w : Str) (hw0 : w ≠ []) (hw : Word w) (rest : Str) :
+    targetThroughput id (.str (spelled num sp w rest)) .none = .ok none ∧
+    schedulerFor none none = .ok .plain ∧ schedulerFor none (some detName) = .ok .plain := by
+  exact ⟨targetThroughput_of_spelled_zero id (fun _ => rfl) hn sp hsp w hw0 hw rest, by simp [schedulerFor, runUnthrottled], by simp [schedulerFor, runUnthrottled]⟩
+example : IsNumber ['.', '0'] 0 := by
+  have h := IsNumber.frac [] ['0'] (by decide) (by intro c hc; cases hc) (by unfold Digits; decide)
+  simpa [digitsVal] using h
+
+/-- ".5 ops/s", one client, 1/8 s per request: a request every 2 s (the second one 1/4 s → still every 2 s) -/
+def demoSpelled : Run :=
+  Run.ofInputs { demoCfg with clients := 1, t0 := 0 } (fun _ => rfl) { demoTask with warmupIt := some 0, iters := some 4, clients := 1 }
+    (.str ['.', '5', ' ', 'o', 'p', 's', '/', 's']) .none 0 1 true 100
+    [okReq (1 / 8), okReq (1 / 4), okReq (1 / 8), okReq (1 / 8)] (by decide +kernel)
+example : demoSpelled.f.out.recs.map (fun r => (r.tup.sched, r.sample.ops)) = [(0, 1), (2, 1), (4, 1), (6, 1)] := by decide +kernel
+example : demoSpelled.tt = .str (spelled ['.', '5'] ' ' opsUnit []) ∧ IsNumber ['.', '5'] (1 / 2) := by
+  refine ⟨rfl, ?_⟩
+  have h := IsNumber.frac [] ['5'] (by decide) (by intro c hc; cases hc) (by unfold Digits; decide)
+  have e : ((digitsVal [] : Nat) : Rat) + ((digitsVal ['5'] : Nat) : Rat) / ((10 ^ ['5'].length : Nat) : Rat) = 1 / 2 := by
+    simp [digitsVal]; norm_num
+  rw [e] at h
+  exact h
 
 /-- **sampler_sizes_conserved.**  For any capacity and any sequence of "n complete adds" / "one drain" — any sizes, far beyond
     every constant in the code —: the sizes of the drained batches, the queue length and the number of reported drops of the
